@@ -127,9 +127,26 @@ func vShortReadsFor(n int) int {
 // ---------------------------------------------------------------------------------------------
 // C18: control-protocol round trips
 
+// vPathOfLen: a path of exactly n bytes. Up to 64 bytes every byte is symbolic; longer paths (which
+// exercise the length framing, not the validator) are a constant filler with symbolic bytes at both
+// ends and in the middle - the validator walks the path byte by byte, and 1024 data-dependent
+// branches cannot be explored.
+func vPathOfLen(n int) string {
+	if n <= 64 {
+		return vString("path", n)
+	}
+	edge := vString("pathEdge", 5)
+	b := make([]byte, n)
+	for i := range b {
+		b[i] = 'a'
+	}
+	b[0], b[1], b[n/2], b[n-2], b[n-1] = edge[0], edge[1], edge[2], edge[3], edge[4]
+	return string(b)
+}
+
 func H_C18_FileBegin() {
 	pl := vPathLens[vChoice("pathLenIdx", len(vPathLens))]
-	path := vString("path", pl)
+	path := vPathOfLen(pl)
 	vAssume(validateRelPath(path) == nil) // the writer refuses other paths
 	msg := FileBegin{RelPath: path, FileSize: vU64("fileSize"), ChunkSize: vU32("chunkSize"), StreamID: vU64("streamID"),
 		HashAlg: vU8("hashAlg"), StripeIndex: vU16("si"), StripeCount: vU16("sc"), StripeStart: vU32("ss"), StripeChunks: vU32("sch")}
